@@ -596,20 +596,18 @@ func (in *c15Inst) applyAccept(t int) *explore.Fail {
 	class := t
 	avail := in.accepted[t] < in.opened[t]
 	must := avail && !in.closed && !in.resetFlag
-	// When the model says a stream is queued, Accept gets a live context (it must not
-	// block: 30 s guard, after which the context is cancelled so that the call returns).
-	// Otherwise - and once one blocked Accept has been seen in this process - the context
-	// is cancelled up front, so that the call cannot block at all.
-	ctx, cancel := context.WithCancel(context.Background())
-	defer cancel()
-	if !must || c15Blocked.Load() > 0 {
-		cancel()
-	}
+	// Accept is first called with a context that is already cancelled: it cannot block, and
+	// the real implementation hands out a queued stream before it looks at the context.
+	// Only if that call comes back empty although the model says a stream is queued, it is
+	// repeated with a live context (an implementation may legitimately look at the context
+	// first); that second call must not block: 30 s guard, afterwards the context is
+	// cancelled so that the call returns. Once one Accept has been found blocked in this
+	// process the second call is skipped (the verdict exists already).
 	var id protocol.StreamID
 	var err error
 	var bs *Stream
 	var us *ReceiveStream
-	call := func() {
+	call := func(ctx context.Context) {
 		if t == 0 {
 			bs, err = in.m.AcceptStream(ctx)
 			if bs != nil {
@@ -622,16 +620,19 @@ func (in *c15Inst) applyAccept(t int) *explore.Fail {
 			}
 		}
 	}
+	ctx, cancel := context.WithCancel(context.Background())
+	cancel()
+	call(ctx)
 	ok := true
-	if ctx.Err() != nil {
-		call()
-	} else {
-		ok = c15Call(call)
+	if must && bs == nil && us == nil && err != nil && c15Blocked.Load() == 0 {
+		ctx2, cancel2 := context.WithCancel(context.Background())
+		defer cancel2()
+		ok = c15Call(func() { call(ctx2) })
 	}
 	in.outcome = "accept " + c15TypeName[t]
 	if !ok {
 		in.dead = true
-		return explore.Failf("accept-blocked:"+c15TypeName[t], "Accept%sStream blocked although the peer has opened %d streams and %d were accepted", c15CallName[t], in.opened[t], in.accepted[t])
+		return explore.Failf("accept-missed:"+c15TypeName[t], "Accept%sStream blocked although the peer has opened %d streams and %d were accepted", c15CallName[t], in.opened[t], in.accepted[t])
 	}
 	got := bs != nil || us != nil
 	if got != (err == nil) {
